@@ -272,7 +272,7 @@ fn build_partial_eq_expr(
     if let Some(by) = &cmp.partial_ord.by {
         return Ok(quote! {
             {
-                fn #fn_ident<__T: ?::core::marker::Sized>(this: &__T, other: &__T, partial_cmp: impl Fn(&__T, &__T) -> ::core::option::Option<::core::cmp::Ordering>) -> bool {
+                fn #fn_ident<__T: ?::core::marker::Sized>(this: &__T, other: &__T, partial_cmp: impl ::core::ops::Fn(&__T, &__T) -> ::core::option::Option<::core::cmp::Ordering>) -> bool {
                     partial_cmp(this, other) == ::core::option::Option::Some(::core::cmp::Ordering::Equal)
                 }
                 #fn_ident(&#this, &#other, #by)
@@ -512,7 +512,7 @@ fn build_partial_ord_expr(
                 fn #fn_ident<__T: ?::core::marker::Sized>(
                     this: &__T,
                     other: &__T,
-                    partial_cmp: impl Fn(&__T, &__T) -> ::core::option::Option<::core::cmp::Ordering>)
+                    partial_cmp: impl ::core::ops::Fn(&__T, &__T) -> ::core::option::Option<::core::cmp::Ordering>)
                  -> ::core::option::Option<::core::cmp::Ordering> {
                     partial_cmp(this, other)
                 }
@@ -531,7 +531,7 @@ fn build_partial_ord_expr(
                 fn #fn_ident<__T: ?::core::marker::Sized>(
                     this: &__T,
                     other: &__T,
-                    cmp: impl Fn(&__T, &__T) -> ::core::cmp::Ordering)
+                    cmp: impl ::core::ops::Fn(&__T, &__T) -> ::core::cmp::Ordering)
                  -> ::core::option::Option<::core::cmp::Ordering> {
                     ::core::option::Option::Some(cmp(this, other))
                 }
@@ -651,7 +651,7 @@ fn build_ord_expr(
                 fn #fn_ident<__T: ?::core::marker::Sized>(
                     this: &__T,
                     other: &__T,
-                    cmp: impl Fn(&__T, &__T) -> ::core::cmp::Ordering)
+                    cmp: impl ::core::ops::Fn(&__T, &__T) -> ::core::cmp::Ordering)
                  -> ::core::cmp::Ordering {
                     cmp(this, other)
                 }
@@ -719,7 +719,7 @@ fn build_hash_body(
             quote! {
                 match self {
                     #(#arms)*
-                    _ => unreachable!(),
+                    _ => ::core::unreachable!(),
                 }
             }
         }
@@ -749,7 +749,7 @@ fn build_hash_expr(
                 fn #fn_ident<__T: ?::core::marker::Sized, __H: ::core::hash::Hasher>(
                     this: &__T,
                     state: &mut __H,
-                    hash: impl Fn(&__T, &mut __H)) {
+                    hash: impl ::core::ops::Fn(&__T, &mut __H)) {
                     hash(this, state)
                 }
                 #fn_ident(&#this, state, #by)
@@ -1015,7 +1015,7 @@ impl HelperAttributeForCompareOp {
 
 fn replace_tokens(
     input: TokenStream,
-    is_match: &impl Fn(&TokenTree) -> bool,
+    is_match: &impl ::core::ops::Fn(&TokenTree) -> bool,
     replacer: &TokenStream,
 ) -> TokenStream {
     let mut ts = TokenStream::new();
@@ -1115,7 +1115,7 @@ fn build_to_index_fn(variants: &[VariantEntry]) -> TokenStream {
         let to_index = |this: &Self| -> usize {
             match this {
                 #(#arms)*
-                _ => unreachable!(),
+                _ => ::core::unreachable!(),
             }
         };
     }
@@ -1123,7 +1123,7 @@ fn build_to_index_fn(variants: &[VariantEntry]) -> TokenStream {
 
 fn build_eq_checker(this: TokenStream) -> TokenStream {
     quote_spanned!(this.span()=>{
-        fn _eq<T: Eq + ?Sized>(_this: &T) { }
+        fn _eq<__T: ::core::cmp::Eq + ?::core::marker::Sized>(_this: &__T) { }
         _eq(&(#this))
     })
 }
